@@ -150,7 +150,10 @@ Definition chk_packed_fixed_decode (i : list N * list N * N) (o : outcome (list 
 (* variable packed struct: fields given as (is_var, width/prefix, offsets, data) *)
 Definition pfield_t : Type := (bool * N * list N * list N)%type.
 Definition to_pfield (f : pfield_t) : pfield :=
-  let '(isv, w, offs, d) := f in if isv then PVar (N.to_nat w) offs d else PFixed (N.to_nat w) d.
+  match f with
+  | (true, w, offs, d) => PVar (N.to_nat w) offs d
+  | (false, w, _, d) => PFixed (N.to_nat w) d
+  end.
 
 (* input (fields, num_values) ; output the rows produced by the real encoder *)
 Definition chk_packed_var_encode (i : list pfield_t * N) (o : list (list N)) : bool :=
@@ -164,7 +167,7 @@ Fixpoint transpose_fields (nf : nat) (rows : list (list (list N))) : list (list 
   | S k => map (fun r => hd [] r) rows :: transpose_fields k (map (fun r => tl r) rows)
   end.
 Definition chk_packed_var_decode (i : list (bool * N) * list (list N)) (o : outcome (list (list (list N)))) : bool :=
-  let kinds := map (fun k => if fst k then KVar (N.to_nat (snd k)) else KFixed (N.to_nat (snd k))) (fst i) in
+  let kinds := map (fun k : bool * N => if fst k then KVar (N.to_nat (snd k)) else KFixed (N.to_nat (snd k))) (fst i) in
   outcome_eqb (list_eqb (list_eqb nlist_eqb))
     (outcome_map (transpose_fields (length kinds)) (packed_var_decode kinds (snd i))) o.
 
